@@ -11,6 +11,48 @@ import os
 from . import AnchorMissing, AnalysisError, PACKAGE, REPO_ROOT
 
 
+class _CounterForm(ast.NodeTransformer):
+    """Normal form for counter updates: `T = T + k` / `T = k + T` / `T = T - k` with a numeric
+    constant k and a plain target T (name, attribute chain, constant-key subscript) is read as
+    `T += k` / `T -= k`.  For the immutable scalars such statements are written for the two
+    are the same statement; rules then need to know one form only.  (Nothing else is
+    normalised: `x = x + e` with a non-constant e stays a rebinding, which matters for the
+    in-place rules.)"""
+
+    @staticmethod
+    def _plain(t):
+        if isinstance(t, ast.Name):
+            return True
+        if isinstance(t, ast.Attribute):
+            return _CounterForm._plain(t.value)
+        if isinstance(t, ast.Subscript):
+            return isinstance(t.slice, ast.Constant) and _CounterForm._plain(t.value)
+        return False
+
+    @staticmethod
+    def _same(a, b):
+        def strip(x):
+            return ast.dump(x).replace('ctx=Store()', 'ctx=Load()')
+        return strip(a) == strip(b)
+
+    def visit_Assign(self, node):
+        self.generic_visit(node)
+        if len(node.targets) != 1 or not self._plain(node.targets[0]) or \
+                not isinstance(node.value, ast.BinOp) or \
+                not isinstance(node.value.op, (ast.Add, ast.Sub)):
+            return node
+        t, v = node.targets[0], node.value
+
+        def num(x):
+            return isinstance(x, ast.Constant) and isinstance(x.value, (int, float)) and \
+                not isinstance(x.value, bool)
+        if self._same(t, v.left) and num(v.right):
+            return ast.copy_location(ast.AugAssign(target=t, op=v.op, value=v.right), node)
+        if isinstance(v.op, ast.Add) and self._same(t, v.right) and num(v.left):
+            return ast.copy_location(ast.AugAssign(target=t, op=v.op, value=v.left), node)
+        return node
+
+
 def _set_parents(tree):
     for node in ast.walk(tree):
         for child in ast.iter_child_nodes(node):
@@ -193,7 +235,8 @@ class Module:
         self.relpath = relpath
         self.text = text
         self.digest = 'sha256:' + hashlib.sha256(text.encode('utf-8')).hexdigest()[:16]
-        self.tree = ast.parse(text, filename=relpath)
+        self.tree = ast.fix_missing_locations(
+            _CounterForm().visit(ast.parse(text, filename=relpath)))
         _set_parents(self.tree)
         self.imports = {}     # local name -> dotted target
         self.star_imports = []
